@@ -248,7 +248,8 @@ def write_csv(data, filename, comment,
         # If compress argument, create a zip file
         arcname = str(PurePosixPath(filename))
         if compress:
-            arcname = filename.name
+            # read_csv looks for the member <stem>.csv in a zip file
+            arcname = f"{filename.stem}.csv"
             archive = zipfile.ZipFile(filename_full, mode="w",
                                       compression=zipfile.ZIP_DEFLATED)
 
